@@ -32,6 +32,7 @@ type flowAux struct {
 	Uploads       map[uint32]int    // stream id -> request body bytes sent (incl. padding)
 	UploadTags    map[uint32]string
 	ClientReset   map[uint32]bool
+	EarlyAnswer   map[string]bool // tags the back-end answers without reading the upload
 	Overdeclared  int
 	ConnOverflow  bool
 	UploadOverrun uint32 // stream on which the client exceeds the server's window (0: none)
@@ -52,7 +53,7 @@ func bodyBytes(tag string, n int) []byte {
 
 func drawFlow(t *rapid.T, check string) *Case {
 	p := &Plan{Check: check, Backend: BackendPlan{Resp: map[string]*RespPlan{}}, Budget: 60000}
-	aux := &flowAux{Streams: map[uint32]string{}, Bodies: map[string][]byte{}, Uploads: map[uint32]int{}, UploadTags: map[uint32]string{}, ClientReset: map[uint32]bool{}}
+	aux := &flowAux{Streams: map[uint32]string{}, Bodies: map[string][]byte{}, Uploads: map[uint32]int{}, UploadTags: map[uint32]string{}, ClientReset: map[uint32]bool{}, EarlyAnswer: map[string]bool{}}
 	enc := NewHEnc()
 	cp := &ClientPlan{ID: 0, Addr: "198.51.100.10:32000", Hello: fixedHello("h2")}
 	var steps []Step
@@ -82,6 +83,13 @@ func drawFlow(t *rapid.T, check string) *Case {
 	p.Args = []string{"-reverse-proxy-flush-interval", "0s"}
 
 	iws := int64([]int{0, 1, 100, 16384, 65535, 1 << 20}[rapid.IntRange(0, 5).Draw(t, "iws0")])
+	// focus (4% of C12 runs): the back-end answers early without reading an upload while the
+	// client's stream window is shut, so the stream stays open with its request body closed
+	// by the proxy's own transport, and a storm of padded DATA keeps arriving on it
+	earlyFocus := check == "C12" && drawBool(t, "earlyfocus", 4)
+	if earlyFocus {
+		iws = 0
+	}
 	mfs := int64(16384)
 	set := []Setting{{4, uint32(iws)}}
 	if drawBool(t, "mfs0", 30) {
@@ -165,7 +173,7 @@ func drawFlow(t *rapid.T, check string) *Case {
 		next += 2
 		tag := fmt.Sprintf("c0-f%d", i)
 		all = append(all, id)
-		if drawBool(t, "upload", 35) {
+		if (earlyFocus && i == 0) || drawBool(t, "upload", 35) {
 			// POST with a body: exercises the server's receive windows / credit return
 			sz := []int{0, 1, 100, 5000, 40000, 120000}[rapid.IntRange(0, 5).Draw(t, "upsz")]
 			if n > 20 {
@@ -173,22 +181,37 @@ func drawFlow(t *rapid.T, check string) *Case {
 			}
 			body := bodyBytes(tag, sz)
 			fields := [][2]string{{":method", "POST"}, {":scheme", "https"}, {":authority", "fc.verif.test"}, {":path", "/" + tag}, {"x-tag", tag}}
-			overdeclared := check == "C12" && sz >= 100 && drawBool(t, "overdeclared", 15)
+			overdeclared := check == "C12" && sz >= 100 && !(earlyFocus && i == 0) && drawBool(t, "overdeclared", 15)
 			if overdeclared {
 				// the body is longer than the declared content-length: the server resets the stream
 				// when the excess arrives and has to discard (and give credit for) what follows
 				fields = append(fields, [2]string{"content-length", fmt.Sprint(sz / 8)})
 			}
 			fs := HeadersFrames(id, enc.Block(fields), sz == 0, nil, -1, nil)
+			// a storm of small, maximally padded frames: padding is flow-controlled too, and what is
+			// discarded (body already closed by the handler) has to be credited with its padding
+			if earlyFocus && i == 0 {
+				sz = 40000
+				body = bodyBytes(tag, sz)
+			}
+			padstorm := check == "C12" && sz >= 5000 && n <= 20 && ((earlyFocus && i == 0) || drawBool(t, "padstorm", 12))
+			if padstorm && sz > 40000 {
+				body = body[:40000]
+			}
 			sent := 0
 			rest := body
 			for len(rest) > 0 {
 				k := rapid.IntRange(1, 16384).Draw(t, "dsz")
+				if padstorm {
+					k = 64
+				}
 				if k > len(rest) {
 					k = len(rest)
 				}
 				pad := -1
-				if drawBool(t, "dpad", 25) {
+				if padstorm {
+					pad = 255
+				} else if drawBool(t, "dpad", 25) {
 					pad = rapid.IntRange(0, 200).Draw(t, "dpadlen")
 					if k+pad+1 > 16384 {
 						pad = -1
@@ -213,7 +236,7 @@ func drawFlow(t *rapid.T, check string) *Case {
 				}
 				continue
 			}
-			if sz > 0 && drawBool(t, "upabort", 30) {
+			if sz > 0 && !(earlyFocus && i == 0) && drawBool(t, "upabort", 30) {
 				// the client cancels the upload right behind its last DATA frame (same TLS write):
 				// the reset meets a handler that is still reading the body
 				last := len(fs) - 1
@@ -229,10 +252,11 @@ func drawFlow(t *rapid.T, check string) *Case {
 			}
 			aux.Uploads[id] = sent
 			aux.UploadTags[id] = tag
-			if drawBool(t, "noread", 20) {
+			if (earlyFocus && i == 0) || drawBool(t, "noread", 20) {
 				// the back-end answers without reading the body: the proxy has to discard it
 				p.Backend.Resp[tag] = &RespPlan{Status: 200, Body: []byte("early:" + tag), NoRead: true}
 				aux.Bodies[tag] = []byte("early:" + tag)
+				aux.EarlyAnswer[tag] = true
 			} else {
 				aux.Bodies[tag] = []byte("ok:" + tag)
 			}
@@ -571,6 +595,13 @@ func oracleC12(w *World, c *Case) {
 				if aux.ConnOverflow && connDied {
 					continue
 				}
+				if st != nil && st.RST && aux.EarlyAnswer[tag] {
+					// the back-end answered without reading the upload and closed; the proxy was
+					// still forwarding the body, its write failed and the exchange was aborted
+					// (what a TCP reset does to a response in flight): not queued data left behind
+					w.Probe("early_answer_exchange_aborted")
+					continue
+				}
 				w.Violate("queued_data_not_delivered", "queued_data_not_delivered", "stream %d (%s) never completed although the client granted enough window for everything (received %d of %d body bytes, rst=%v, run stuck=%v) | %s", id, tag, lenBody(st), len(aux.Bodies[tag]), st != nil && st.RST, stuck, desc)
 				return
 			}
@@ -655,7 +686,7 @@ func init() {
 		}
 		return drawFlow(t, "C12")
 	},
-		Rule: "a raw-frame client opens 1-8 (5%: 20-120) streams: downloads of 0..300000 bytes (boundary sizes 16384/16385/65535/65536, streamed by the back-end in chunks) and uploads of 0..120000 bytes in DATA frames of seeded sizes with padding (20% answered by the back-end without reading the body), with SETTINGS_INITIAL_WINDOW_SIZE in {0,1,100,16384,65535,2^20} and MAX_FRAME_SIZE variants; then 0-10 window events: connection / stream WINDOW_UPDATEs of 1..2^20, INITIAL_WINDOW_SIZE changes up and down (driving open windows negative), MAX_FRAME_SIZE changes, client RST_STREAM mid-body; final grants that suffice for everything; 5%: a connection WINDOW_UPDATE overflowing 2^31-1. All three write schedulers, fences, response segmentation by draw. Oracle refwin: every DATA frame within the connection window, the stream window (largest INITIAL_WINDOW_SIZE among the last acknowledged and all later written SETTINGS, plus every WINDOW_UPDATE written before the frame was received) and the maximum frame size; all bodies complete and byte-identical after the final grants; overflow rejected with FLOW_CONTROL_ERROR; connection-level credit not returned after all uploads are consumed or discarded <= 16 KiB and never negative. Non-trivial: the server sent DATA. Distinct: distinct controller action-label sequences."})
+		Rule: "a raw-frame client opens 1-8 (5%: 20-120) streams: downloads of 0..300000 bytes (boundary sizes 16384/16385/65535/65536, streamed by the back-end in chunks) and uploads of 0..120000 bytes in DATA frames of seeded sizes with padding (20% answered by the back-end without reading the body; 15% longer than their declared content-length, so that the server resets the stream and has to discard what follows), with SETTINGS_INITIAL_WINDOW_SIZE in {0,1,100,16384,65535,2^20} and MAX_FRAME_SIZE variants; then 0-10 window events: connection / stream WINDOW_UPDATEs of 1..2^20, INITIAL_WINDOW_SIZE changes up and down (driving open windows negative), MAX_FRAME_SIZE changes, client RST_STREAM mid-body; final grants that suffice for everything; 5%: a connection WINDOW_UPDATE overflowing 2^31-1. All three write schedulers, fences (incl. the write fence that keeps a frame write in flight, 30% of runs), response segmentation by draw. Oracle refwin: every DATA frame within the connection window, the stream window (largest INITIAL_WINDOW_SIZE among the last acknowledged and all later written SETTINGS, plus every WINDOW_UPDATE written before the frame was received) and the maximum frame size; all bodies complete and byte-identical after the final grants; overflow rejected with FLOW_CONTROL_ERROR; connection-level credit not returned after all uploads are consumed or discarded <= 16 KiB and never negative. Non-trivial: the server sent DATA. Distinct: distinct controller action-label sequences."})
 	register(&CheckDef{ID: "C20", Level: "exploration", Engine: "A", Draw: func(t *rapid.T) *Case { return drawFlow(t, "C20") },
 		Rule: "in-situ monitor: the C12 workload (bodies under client-controlled windows, RST_STREAM mid-body, INITIAL_WINDOW_SIZE and MAX_FRAME_SIZE changes) plus PRIORITY frames with arbitrary, circular and exclusive dependencies on open, idle and closed streams, against round-robin / priority (seeded MaxClosedNodesInTree, MaxIdleNodesInTree, ThrottleOutOfOrderWrites) / random schedulers installed through http2.Server.NewWriteScheduler behind a monitor that checks every OpenStream / CloseStream / AdjustStream / Push / Pop against a list-based model: each pushed frame popped exactly once unless its stream was closed first, per-stream order, control before stream data, popped DATA pieces <= stream window, connection window and peer's maximum frame size (read before the pop through an injected accessor) and concatenating to the original, Pop()==false only when nothing is sendable, priority tree rooted at 0 / acyclic / links consistent after every operation. Operation sequences are those the serve loop produces under simulated schedules, not arbitrary interface-level sequences. Non-trivial: the server sent DATA. Distinct: distinct controller action-label sequences."})
 }
